@@ -489,5 +489,66 @@ def TermCursor.matches (c : TermCursor) : Option (Int × Int × Int) → Bool
   | none => c.vis == 0
   | some (l, k, s) => c.vis == 1 && c.line == l && c.col == k && c.shape == s
 
+/-! ### specification of restacking
+
+  `raise` / `raise_to_front` / `lower` / `lower_to_back` are requests: they take effect at the next flush, *in the order
+  they were made*.  "Not covered by another window" in the cursor clause is therefore read on the tree whose sibling
+  lists are the ones found at the flush with the requests applied to them one after the other, oldest first. -/
+
+/-- `w` one place towards the front (no effect on the front-most window or on a window that is not in the list). -/
+def swapPrev : List Id → Id → List Id
+  | x :: y :: rest, w =>
+    if x = w then x :: y :: rest
+    else if y = w then y :: x :: rest
+    else x :: swapPrev (y :: rest) w
+  | cs, _ => cs
+
+/-- `w` one place towards the back (no effect on the rear-most window or on a window that is not in the list). -/
+def swapNext : List Id → Id → List Id
+  | x :: y :: rest, w =>
+    if x = w then y :: x :: rest
+    else x :: swapNext (y :: rest) w
+  | cs, _ => cs
+
+/-- The sibling list (front-most first) one restacking request asks for. -/
+def stackSpec (ch : Change) (cs : List Id) (w : Id) : List Id :=
+  if !cs.contains w then cs
+  else match ch with
+    | .raise => swapPrev cs w
+    | .raiseFront => w :: cs.erase w
+    | .lower => swapNext cs w
+    | .lowerBack => cs.erase w ++ [w]
+    | _ => cs
+
+/-- One request applied to the tree: only the sibling list of the window's parent changes (a window without a parent —
+    the root, a closed or freed window — has no siblings to be restacked among). -/
+def applyStackReq (t : Tree) (r : Change × Id) : Tree :=
+  match t.wins[r.2]? with
+  | none => t
+  | some w =>
+    match w.parent with
+    | none => t
+    | some p =>
+      match t.wins[p]? with
+      | none => t
+      | some pw => { t with wins := t.wins.setIfInBounds p { pw with children := stackSpec r.1 pw.children r.2 } }
+
+/-- The requests applied in the order they were made (oldest first). -/
+def stackApplied (t : Tree) (reqs : List (Change × Id)) : Tree := reqs.foldl applyStackReq t
+
+/-- The sibling lists of `t` replaced by those of `s` (everything else — geometry, flags, cursor records, focus links —
+    is `t`'s). -/
+def withStacking (t s : Tree) : Tree :=
+  { t with wins := t.wins.mapIdx fun i w =>
+      match s.wins[i]? with
+      | some w' => { w with children := w'.children }
+      | none => w }
+
+/-- What the terminal cursor must be after a flush that found the tree `before` with the requests `reqs` (oldest first)
+    outstanding and left the tree `after`: the cursor clause on `after` stacked as the requests, applied in request order,
+    say. -/
+def cursorSpecReq (before after : Tree) (reqs : List (Change × Id)) : Option (Int × Int × Int) :=
+  cursorSpec (withStacking after (stackApplied before reqs))
+
 end WinFocus
 end Tickit
